@@ -60,6 +60,7 @@ pub fn record(pool_path: &str, out: &mut dyn std::io::Write, seed: u64, n_events
     let mut handles: Vec<(usize, PreparedGeometry<'static, Geometry<f64>>)> = vec![];
     let mut seq = 0usize;
     while seq < n_events {
+        crate::ctx::beat(&format!("{{\"record\": \"c17\", \"seed\": {seed}, \"event\": {seq}}}"));
         seq += 1;
         if seq % 60 == 0 {
             handles.clear();
